@@ -233,11 +233,15 @@ theorem mem_addKey (K : List (List Char)) (t : List Char) : t ∈ addKey K t := 
 theorem extend_cons (K : List (List Char)) (t : List Char) (ts : List (List Char)) :
     extend K (t :: ts) = extend (addKey K t) ts := rfl
 
+/-- the script is closed: the machine ends outside literals and embeds -/
+def Closed (ps : PS) : Prop := ps.st = .idle ∨ ps.st = .comment
+
 theorem go_segs (segs : List Seg) (h : wfList segs = true) (k : List Char) (K : List (List Char)) :
     (go (bnd k K) false (assemble segs)).keep = k ++ assemble (segs.map (substSeg (extend K (exprs segs)))) ∧
-    (go (bnd k K) false (assemble segs)).subs = table (extend K (exprs segs)) := by
+    (go (bnd k K) false (assemble segs)).subs = table (extend K (exprs segs)) ∧
+    Closed (go (bnd k K) false (assemble segs)) := by
   induction segs generalizing k K with
-  | nil => simp [assemble, go, bnd, exprs, extend]
+  | nil => simp [assemble, go, bnd, exprs, extend, Closed]
   | cons seg rest ih =>
     simp only [wfList, Bool.and_eq_true] at h
     obtain ⟨⟨hwf, hb⟩, hrest⟩ := h
@@ -278,7 +282,7 @@ theorem go_segs (segs : List Seg) (h : wfList segs = true) (k : List Char) (K : 
         subst hr
         simp only [assemble, List.map_nil, List.flatten_nil, List.append_nil]
         rw [go_seg_comment_end s hq]
-        simp [exprs, extend, substSeg, assemble]
+        simp [exprs, extend, substSeg, assemble, Closed]
     | embed e =>
       have hq : '}' ∉ e := by simpa [Seg.wf] using hwf
       rw [go_seg_embed e _ hq]
@@ -433,5 +437,104 @@ theorem boundNames_table_nodup (K : List (List Char)) : (boundNames (table K)).N
     rcases hb with rfl | rfl
     · exact varName_ne_fixed i "BUFR_MESSAGE".toList (by simp)
     · exact varName_ne_fixed i "FILENAME".toList (by simp)
+
+
+
+theorem split_first (x : Char) (l : List Char) : x ∉ l ∨ ∃ a b, l = a ++ x :: b ∧ x ∉ a := by
+  induction l with
+  | nil => simp
+  | cons c l ih =>
+    by_cases h : c = x
+    · right; exact ⟨[], l, by simp [h], by simp⟩
+    · rcases ih with ih | ⟨a, b, e, ha⟩
+      · left; simp [ih, Ne.symm h]
+      · right; exact ⟨c :: a, b, by simp [e], by simp [ha, Ne.symm h]⟩
+
+
+theorem closeEmbed_idle (ps : PS) : ∃ k n T x, closeEmbed ps = ⟨.idle, k, n, T, x⟩ := by
+  unfold closeEmbed
+  dsimp only
+  cases List.lookup (trim ps.expr) ps.subs <;> exact ⟨_, _, _, _, rfl⟩
+
+theorem segments_exist_aux (n : Nat) : ∀ (s : List Char), s.length ≤ n → ∀ (k : List Char) (i : Nat) (T : Subs) (x : List Char),
+    Closed (go ⟨.idle, k, i, T, x⟩ false s) → ∃ segs, wfList segs = true ∧ assemble segs = s := by
+  induction n with
+  | zero =>
+    intro s hs _ _ _ _ _
+    have : s = [] := by cases s <;> simp_all
+    exact ⟨[], by simp [wfList], by simp [assemble, this]⟩
+  | succ n ih =>
+    intro s hs k i T x hc
+    match s, hs with
+    | [], _ => exact ⟨[], by simp [wfList], by simp [assemble]⟩
+    | c :: rest, hs =>
+      have hlen : rest.length ≤ n := by simpa using hs
+      by_cases hq : c = '\''
+      · subst hq
+        rw [go] at hc; simp [onQuote] at hc
+        rcases split_first '\'' rest with hno | ⟨a, b, e, ha⟩
+        · have := go_plain .sq (by simp) rest [] (by simpa [closer] using hno) (k ++ ['\'']) i T x
+          simp at this; rw [this] at hc; simp [go, Closed] at hc
+        · subst e
+          rw [go_plain .sq (by simp) a _ (by simpa [closer] using ha)] at hc
+          rw [go] at hc; simp [onQuote] at hc
+          obtain ⟨segs, hw, he⟩ := ih b (by simp at hlen; omega) _ _ _ _ hc
+          exact ⟨.sq a :: segs, by simp [wfList, Seg.wf, Seg.boundaryOk, hw, ha], by simp [assemble_cons, Seg.render, he]⟩
+      · by_cases hq2 : c = '"'
+        · subst hq2
+          rw [go] at hc; simp [onQuote] at hc
+          rcases split_first '"' rest with hno | ⟨a, b, e, ha⟩
+          · have := go_plain .dq (by simp) rest [] (by simpa [closer] using hno) (k ++ ['"']) i T x
+            simp at this; rw [this] at hc; simp [go, Closed] at hc
+          · subst e
+            rw [go_plain .dq (by simp) a _ (by simpa [closer] using ha)] at hc
+            rw [go] at hc; simp [onQuote] at hc
+            obtain ⟨segs, hw, he⟩ := ih b (by simp at hlen; omega) _ _ _ _ hc
+            exact ⟨.dq a :: segs, by simp [wfList, Seg.wf, Seg.boundaryOk, hw, ha], by simp [assemble_cons, Seg.render, he]⟩
+        · by_cases hh : c = '#'
+          · subst hh
+            rcases split_first '\n' rest with hno | ⟨a, b, e, ha⟩
+            · exact ⟨[.comment rest false], by simp [wfList, Seg.wf, Seg.boundaryOk, hno], by simp [assemble, Seg.render]⟩
+            · subst e
+              rw [go] at hc; simp [keepChar] at hc
+              rw [go_plain .comment (by simp) a _ (by simpa [closer] using ha)] at hc
+              rw [go] at hc; simp [keepChar] at hc
+              obtain ⟨segs, hw, he⟩ := ih b (by simp at hlen; omega) _ _ _ _ hc
+              exact ⟨.comment a true :: segs, by simp [wfList, Seg.wf, Seg.boundaryOk, hw, ha], by simp [assemble_cons, Seg.render, he]⟩
+          · by_cases hd : c = '$' ∧ rest.head? = some '{'
+            · obtain ⟨hd1, hd2⟩ := hd
+              subst hd1
+              match rest, hd2, hlen with
+              | d :: rest2, hd2, hlen =>
+                simp at hd2; subst hd2
+                rw [go] at hc; simp at hc
+                rw [go] at hc; simp at hc
+                rcases split_first '}' rest2 with hno | ⟨a, b, e, ha⟩
+                · have := go_embed_run rest2 [] hno k i T x
+                  simp at this; rw [this] at hc; simp [go, Closed] at hc
+                · subst e
+                  rw [go_embed_run a _ ha] at hc
+                  rw [go] at hc; simp at hc
+                  obtain ⟨k', i', T', x', e'⟩ := closeEmbed_idle ⟨.embed, k, i, T, x ++ a⟩
+                  rw [e'] at hc
+                  obtain ⟨segs, hw, he⟩ := ih b (by simp at hlen; omega) _ _ _ _ hc
+                  exact ⟨.embed a :: segs, by simp [wfList, Seg.wf, Seg.boundaryOk, hw, ha], by simp [assemble_cons, Seg.render, he]⟩
+            · have hstep : go ⟨.idle, k, i, T, x⟩ false (c :: rest) = go ⟨.idle, k ++ [c], i, T, x⟩ false rest := by
+                have := go_code_run [c] rest ⟨by simp [Ne.symm hq], by simp [Ne.symm hq2], by simp [Ne.symm hh], by simp [hasDollarBrace]⟩
+                  (by simpa using hd) k i T x
+                simpa using this
+              rw [hstep] at hc
+              obtain ⟨segs, hw, he⟩ := ih rest hlen _ _ _ _ hc
+              refine ⟨.code [c] :: segs, ?_, by simp [assemble_cons, Seg.render, he]⟩
+              simp [wfList, Seg.wf, Seg.boundaryOk, hw, hasDollarBrace, he]
+              refine ⟨⟨⟨Ne.symm hq, Ne.symm hq2⟩, Ne.symm hh⟩, ?_⟩
+              by_cases h1 : c = '$'
+              · right; intro h2; exact hd ⟨h1, h2⟩
+              · left; exact h1
+
+/-- every closed script is the text of a well-formed segment list -/
+theorem segments_exist (s : List Char) (h : Closed (go {} false s)) :
+    ∃ segs, wfList segs = true ∧ assemble segs = s :=
+  segments_exist_aux s.length s (Nat.le_refl _) [] 0 [] [] h
 
 end Bufr.Script
